@@ -313,6 +313,92 @@ def trace_verdict(m, sd, trace_ids, err):
     return res
 
 
+_orig_find_tasks = xt.Manager.find_tasks
+LISTED = []
+
+
+def _find_tasks(self, start_deps=None):
+    res = _orig_find_tasks(self, start_deps)
+    LISTED.append([tid_path(t.taskid) for t in res])
+    return res
+
+
+xt.Manager.find_tasks = _find_tasks
+
+
+def gen_fun_check(m, roots, roots_data, arg_paths, values, obs):
+    """C13: g = manager.gen_fun('g', x0=ref0, ...); g(v0, ...) on the real containers, compared with a
+    twin manager (same definitions, copied containers) on which the values are assigned through
+    set_value one after the other."""
+    import copy
+    res = {"err": None, "cycle": False}
+    if not all(isinstance(t, ExprTask) for t in m.tasks.values()):
+        return {"skipped": "non-expression tasks", "err": None}
+    data2 = copy.deepcopy(roots_data)
+    m2 = xd.Manager()
+    roots2 = {label: m2.ref(d, label) for label, d in data2.items()}
+    m2.load(m.dump())
+    refs = [mkref(roots, p) for p in arg_paths]
+    start = set()
+    for r in refs:
+        r._get_dependencies(start)
+    obs["sd_order"] = [ref_path(x) for x in start]
+    del LISTED[:]
+    del STARTS[:]
+    try:
+        kwargs = {f"x{i}": r for i, r in enumerate(refs)}
+        res["source"] = m.mk_fun("g", **kwargs)
+        del LISTED[:]
+        del STARTS[:]
+        g = m.gen_fun("g", **kwargs)
+        obs["start_order"] = STARTS[-1] if STARTS else []
+        res["listed"] = LISTED[-1] if LISTED else []
+        g(*values)
+        TRACE.extend(res["listed"])          # the function ran every listed task
+    except Exception as e:
+        res["err"] = exc_name(e)
+        return res
+    # twin: assign through the manager
+    tainted = False
+    for p, v in zip(arg_paths, values):
+        r2 = mkref(roots2, p)
+        sd = r2._get_dependencies()
+        try:
+            m2.set_value(r2, v)
+        except Exception as e:
+            res["twin_err"] = exc_name(e)
+            break
+        if order_cycle(triggered(m2, sd)):
+            tainted = True
+    res["cycle"] = tainted
+    del TRACE[:]
+    TRACE.extend(res["listed"])          # drop the twin manager's runs from the trace of this operation
+    sa, sb = [], []
+    for label in roots_data:
+        flatten(roots_data[label], [label], sa)
+        flatten(data2[label], [label], sb)
+    res["equal"] = (sa == sb)
+    if sa != sb:
+        res["diff"] = [[x, y] for x, y in zip(sa, sb) if x != y][:4]
+    # the source lists each triggered task once, producers first
+    trig = triggered(m, start)
+    want = sorted(json.dumps(tid_path(t.taskid)) for t in trig)
+    have = sorted(json.dumps(x) for x in res["listed"])
+    if want != have:
+        res["listed_mismatch"] = [want, have]
+    if not order_cycle(trig):
+        pos = {json.dumps(x): i for i, x in enumerate(res["listed"])}
+        for a in trig:
+            for b in trig:
+                if a is not b and set(a.targets) & set(b.dependencies):
+                    ka, kb = json.dumps(tid_path(a.taskid)), json.dumps(tid_path(b.taskid))
+                    if ka in pos and kb in pos and pos[ka] > pos[kb]:
+                        res["order"] = [ka, kb]
+    else:
+        res["cycle"] = True
+    return res
+
+
 def fresh_check(m, roots, roots_data, leaves, followups):
     """C03 oracle: a fresh manager holding only the surviving definitions answers
     every query and reacts to later assignments like the one with the history."""
@@ -436,6 +522,10 @@ def run_case(case, opts):
                 m.verify()
             elif kind == "cleanup":
                 m.cleanup()
+            elif kind == "genfun":
+                obs["genfun"] = gen_fun_check(m, roots, roots_data, op[1], op[2], obs)
+                if obs["genfun"].get("err"):
+                    obs["err"] = obs["genfun"]["err"]
             elif kind == "freshcheck":
                 obs["fresh"] = fresh_check(m, roots, roots_data, op[1], op[2])
             elif kind == "arm":
@@ -451,7 +541,9 @@ def run_case(case, opts):
         saved = FAULT["n"]
         FAULT["n"] = None
         obs["trace"] = list(TRACE)
-        obs["start_order"] = STARTS[-1] if STARTS and kind in ("set", "inplace") else []
+        if kind != "genfun":
+            obs["start_order"] = STARTS[-1] if STARTS and kind in ("set", "inplace") else []
+        obs.setdefault("start_order", [])
         if snap:
             obs.update(snapshot(m, roots_data, None))
         elif heavy:
